@@ -190,6 +190,7 @@ def run_case(case):
         lo, hi = case['range']
         bad = []
         n = 0
+        prev_field, live = None, None
         for idx, field in enumerate(itertools.product(vals, repeat=N + 2)):
             if idx < lo:
                 continue
@@ -198,6 +199,23 @@ def run_case(case):
             phi = pf.CellVariable(m, np.array(field))
             with np.errstate(all='ignore'):
                 rhs = pf.convectionTVDupwindRHSTerm(uf, phi, FL)
+                # the long-lived variable of a time loop: refreshed IN PLACE with the previous field of the enumeration (update_value /
+                # assignment to .value keep the array object), term rebuilt - must be finite and equal to the term of a fresh variable
+                if prev_field is not None:
+                    if idx % 2:
+                        live.update_value(pf.CellVariable(m, np.array(field)))
+                    else:
+                        live.value = np.array(field)[1:-1]
+                        live._value[0], live._value[-1] = field[0], field[-1]
+                    rhs_live = pf.convectionTVDupwindRHSTerm(uf, live, FL)
+                    cov['tvd_calls_on_refreshed_variable'] = cov.get('tvd_calls_on_refreshed_variable', 0) + 1
+                    if not np.array_equal(np.asarray(rhs_live), np.asarray(rhs), equal_nan=True):
+                        bad.append(('%s/tvd-stale-after-refresh' % name, 'TVD RHS of a variable refreshed in place differs from that of a fresh variable with the same values: %s N=%d limiter=%s u=%s field=%r (previous %r) -> %r vs %r' % (
+                            cls, N, name, upat, field, prev_field, to_list(rhs_live), to_list(rhs))))
+                else:
+                    live = pf.CellVariable(m, np.array(field))
+                    pf.convectionTVDupwindRHSTerm(uf, live, FL)
+                prev_field = field
             n += 1
             if not np.all(np.isfinite(rhs)):
                 bad.append(('%s/tvd-nonfinite' % name, 'TVD RHS non-finite: %s N=%d limiter=%s u=%s field=%r -> %r' % (
@@ -289,6 +307,8 @@ def floors(agg, tier):
             out.append('too few TVD fields on ' + cls)
     if agg['cov'].get('fl_int_values', 0) < 16 * 500:
         out.append('integer-typed ratios: %d values checked' % agg['cov'].get('fl_int_values', 0))
+    if agg['cov'].get('tvd_calls_on_refreshed_variable', 0) < 10000:
+        out.append('tvd_calls_on_refreshed_variable < 10000')
     if agg['cov'].get('fl_unknown_name', 0) < 6:
         out.append('unknown-name fallback not exercised')
     return out
